@@ -90,6 +90,10 @@ def country(draw, code, role, K, gold_allowed, has_gov=True):
         gk = draw(st.sampled_from(kinds))
         gov = {'kind': gk, 'code': 'GOV' if gk not in ('treasury_cb', 'gold_cb') else 'TRE', 'cb_code': 'CB',
                'cb_via_ctor': draw(st.booleans()), 'ic': None}
+        if gk in ('treasury_cb', 'gold_cb') and draw(gen.chance(1, 3)):
+            gov['cash'] = draw(path(K, 0, 3000))          # Treasury money holdings: pre-declared DEM_MON made exogenous
+        if draw(gen.chance(1, 4)):
+            gov['redeclare_T'] = draw(st.sampled_from(['0.', '0', '0.0']))   # idiom of the examples: T re-declared before main()
         if gk in ('gold', 'gold_cb'):
             gov['gold_stock'] = dec2(draw(st.integers(0, 50000)))
         c['gov'] = gov
@@ -442,6 +446,11 @@ def _construct(spec, out, mod, zsel, nm, dsc, make_external, order_seed, hooks):
                 lab.AddSupplier(S[(zi, ci, 'hh0')])
         # government spending
         gov = S[(zi, 0, 'gov')]
+        g0 = c0['gov']
+        if g0.get('redeclare_T') is not None:
+            gov.AddVariable('T', dsc('taxes'), g0['redeclare_T'])
+        if g0.get('cash') is not None and c0['money'] is not None:
+            gov.SetExogenous('DEM_' + S[(zi, 0, 'money')].Code, '[' + ', '.join(g0['cash']) + ']')
         if zone['kind'] == 'single':
             gname = 'DEM_' + nm(zi, 0, c0['goods'])
             if gname not in gov.EquationBlock:
